@@ -271,6 +271,9 @@ func WorkerMain(prop, tier string, shard, nshards int, out string, budget time.D
 			defer pprof.StopCPUProfile()
 		}
 	}
+	PanicSink = func(key, what string, replay map[string]interface{}) {
+		c.Violation(Violation{Key: key, What: what, Size: len(key), Replay: replay})
+	}
 	func() {
 		defer func() {
 			if r := recover(); r != nil {
